@@ -3,6 +3,7 @@
 Family A  one channel, one format-changing scaler: every scaler type x buffer width (size + padding 0/1/3) x EVERY byte
           offset at which the scaler fits x rows {1,2,3} x chunks {1,2,3} x byte order x {DAQmx-typed, plain-typed channel}
 Family B  digital-line scalers: types u8/u16/u32 x widths x EVERY bit offset x rows x chunks
+Family T  truncation: every cut inside the last segment of two-buffer layouts with different widths (whole rows only)
 Family C  2-3 channels, 1-2 scalers each, 1-2 raw buffers of different widths and lengths: every placement of the
           second scaler, every ordered pair of scaler types from a subset, chunks {1,2,3}, both byte orders
 Oracle: bytes at chunk_base + buffer_base + row*width + offset of a fixed non-repeating filler pattern (phase rotated by
@@ -89,6 +90,38 @@ def fam_c(tier):
                                              G.seg(same, newlist=False, chunks=1, big=big), G.seg(same, newlist=False, chunks=1, big=not big)])
 
 
+def fam_t():
+    """truncation: every cut inside the last segment of layouts with raw buffers of different widths and lengths"""
+    for widths, na, nb in (([8, 2], 2, 3), ([6, 4], 3, 2), ([3, 8], 2, 2), ([4], 3, 3)):
+        for chunks in (1, 2):
+            for big in (False, True):
+                sa = [(3, 0, 0, 0, 0), (0, 0, widths[0] - 1, 0, 1)]
+                sb = [(3, len(widths) - 1, 0, 0, 0)]
+                objs = [(A, F.daqmx_enc(na, sa, widths), nscales(sa)), (B, F.daqmx_enc(nb if len(widths) > 1 else na, sb, widths), nscales(sb))]
+                yield ('T', [G.seg(objs, chunks=chunks, big=big), G.seg([], meta=False, chunks=2, big=big)])
+
+
+def check_truncated(hist, seed):
+    """-> (n, problems): every cut of the last segment, eager and lazy, prefix oracle (complete rows only)"""
+    from .c06 import observe_cut, judge
+    data, _i, layout, ref = G.encode(hist, seed=seed, ref=G.interpret(hist, seed=seed, lenient=True, filler_phase=seed))
+    bad = []
+    n = 0
+    for cut in range(layout[-1]['start'], len(data)):
+        for lazy in (False, True):
+            n += 1
+            o = observe_cut(data[:cut], lazy)
+            if o[0] != 'ok':
+                bad.append(('truncated-raised', 'cut %d %s: raised %s %s' % (cut, 'lazy' if lazy else 'eager', o[1], o[2])))
+                continue
+            why = judge(o[1], ref, layout, cut, False)
+            if why and why[0] != 'status':
+                bad.append(('truncated-' + why[0], 'cut %d %s: %s' % (cut, 'lazy' if lazy else 'eager', why[1])))
+        if len(bad) > 3:
+            break
+    return n, bad
+
+
 def check_file(hist, seed, windows=True):
     """-> (n_checks, list of (kind, message))"""
     data, _i, layout, ref = G.encode(hist, seed=seed, ref=G.interpret(hist, seed=seed, lenient=True, filler_phase=seed))
@@ -165,7 +198,7 @@ def _worker(item):
     fam, hists, seed = item
     res = {'counters': {'layouts': 0, 'checks': 0, 'nontrivial': 0}, 'outcomes': {}, 'violations': [], 'samples': []}
     for h in hists:
-        n, bad = check_file(h, seed)
+        n, bad = check_truncated(h, seed) if fam == 'T' else check_file(h, seed)
         res['counters']['layouts'] += 1
         res['counters']['checks'] += n
         res['counters']['nontrivial'] += 1
@@ -185,7 +218,7 @@ def _worker(item):
 
 def run(ctx):
     from ..run import merge
-    allh = list(fam_a()) + list(fam_b()) + list(fam_c(ctx.tier))
+    allh = list(fam_a()) + list(fam_b()) + list(fam_c(ctx.tier)) + list(fam_t())
     items = []
     step = 40
     for i in range(0, len(allh), step):
@@ -199,12 +232,15 @@ def run(ctx):
     cov = {'evaluations': c['checks'], 'layouts': c['layouts'], 'families': fams, 'distinct_nontrivial': c['nontrivial'],
            'rule': 'distinct DAQmx layouts (parameter tuples), all data-bearing; evaluations = whole-file reads + lazy windows + chunk streams compared',
            'outcomes': m['outcomes'], 'samples': m['samples'][:3], 'exhaustive': True,
-           'vacuity_failures': [] if all(fams.get(k) for k in 'ABC') else ['a family is empty']}
+           'vacuity_failures': [] if all(fams.get(k) for k in 'ABCT') else ['a family is empty']}
     return cov, m['violations']
 
 
 def replay(case):
-    n, bad = check_file(case['history'], case.get('seed', 0))
+    if case.get('family') == 'T':
+        n, bad = check_truncated(case['history'], case.get('seed', 0))
+    else:
+        n, bad = check_file(case['history'], case.get('seed', 0))
     if bad:
         return True, 'bytes at the declared buffer/stride/offset', bad[0][1]
     return False, 'equal', 'equal'
